@@ -226,6 +226,9 @@ impl Iterator for MarkdownIterator<'_> {
 
             // found the initial front-matter (=document configuration)?
             if !self.content_start && line == "---" {
+                // there is only one front-matter: a later `---` is a horizontal rule
+                self.content_start = true;
+
                 // an unterminated front-matter is read until the end of the document
                 let mut config_content = vec![];
                 for line in self.document_lines.by_ref() {
